@@ -171,6 +171,44 @@ contract(MT + "RegexMatcher.compile", props=P, params={"self": "ref:RegexMatcher
          doc="add_step_definition compiles every new matcher through this method: the 're' matcher must end up with the "
              "anchored expression (whole-text match), 're0' with the pattern as written")
 
+# -- the matcher class in force: a default chosen by the user survives the per-module reset ------------------------------
+shape("StepMatcherFactory", step_matcher_class_mapping="dict", default_matcher="any", default_matcher_name="any", _current_matcher="any")
+contract(MT + "StepMatcherFactory.use_default_step_matcher", props=P, params={"self": "ref:StepMatcherFactory", "name": "opt:str"},
+         self_classes=["StepMatcherFactory"], lookup_raises=True,
+         raises=[Raises("KeyError", when="truthy(name) and not has_key(self.step_matcher_class_mapping, name)", label="unknown-matcher-name")],
+         modifies=["self.default_matcher", "self.default_matcher_name", "self._current_matcher"],
+         ensures={"without-a-name-the-stored-default-class-becomes-current-and-stays-the-default":
+                  "implies(not truthy(name), self._current_matcher == old(self.default_matcher) and "
+                  "self.default_matcher == old(self.default_matcher) and result == old(self.default_matcher))",
+                  "with-a-name-that-class-becomes-default-and-current":
+                  "implies(truthy(name), self.default_matcher == dict_value(self.step_matcher_class_mapping, name) and "
+                  "self._current_matcher == self.default_matcher and self.default_matcher_name == name and result == self.default_matcher)"},
+         doc="load_step_modules resets to the default before every step module: a default installed with "
+             "use_current_step_matcher_as_default() (class only, no name) must survive that reset")
+contract(MT + "StepMatcherFactory.use_current_step_matcher_as_default", props=P, params={"self": "ref:StepMatcherFactory"},
+         self_classes=["StepMatcherFactory"], modifies=["self.default_matcher"],
+         ensures={"the-current-class-is-the-default-from-now-on": "self.default_matcher == self._current_matcher"})
+
+# -- step definition identity: the location of the innermost wrapped function ----------------------------------------------
+oracle("wrapped_of", ["val"], "val")        # getattr(f, "__wrapped__", None)
+oracle("unwrapped", ["val", "int"], "val")  # f after k unwrap steps
+contract("abs:getattr.__wrapped__", trusted=True, pos_params=["func", "name", "default"], pure=True, result="any",
+         ensures={"value": "result == wrapped_of(func)"}, doc="getattr(func, '__wrapped__', None) (A-lib)")
+contract("behave.model_core:unwrap_function", props=P, params={"func": "any", "max_depth": "int"},
+         exprs={"getattr(func, '__wrapped__', None)": ("contract", "abs:getattr.__wrapped__")},
+         requires={"a-depth-limit": "max_depth >= 0"},
+         assume={"definition-of-unwrapped: follow __wrapped__ k times":
+                 "unwrapped(func, 0) == func and forall(lambda k: implies(0 <= k, unwrapped(func, k + 1) == wrapped_of(unwrapped(func, k))))"},
+         loops=[Loop(invariant={"k-levels-removed": "0 <= iteration <= max_depth and func == unwrapped(pre(func), iteration) and "
+                                                    "wrapped == wrapped_of(func) and "
+                                                    "forall(lambda k: implies(0 <= k < iteration, truthy(wrapped_of(unwrapped(pre(func), k)))))"})],
+         ensures={"every-wrapper-level-is-removed-up-to-the-depth-limit":
+                  "exists(lambda n: 0 <= n <= max_depth and result == unwrapped(func, n) and "
+                  "(n == max_depth or not truthy(wrapped_of(unwrapped(func, n)))) and "
+                  "forall(lambda k: implies(0 <= k < n, truthy(wrapped_of(unwrapped(func, k))))))"},
+         doc="the location of a step definition (Matcher.location, same_step_definition) is that of the innermost function: "
+             "two different functions under the same stack of decorators stay different definitions")
+
 prop("C11", level="proof", bounded=[],
      explanation="dispatch order (own type before generic, earlier before later, first hit wins), Matcher.match/matches "
                  "outcome mapping and the positional/keyword split of Match.run proved; full-text and case-sensitive "
